@@ -10,12 +10,12 @@
 static MModel base_model()
 {
     MModel m;
-    m.gdecl = "int g; int h; clock x; clock y; chan c; broadcast chan bc; const int K = 2; int arr[3]; typedef int[0,2] id_t;";
+    m.gdecl = "int g; int h; clock x; clock y; chan c; broadcast chan bc; const int K = 2; int arr[3]; typedef int[0,2] id_t; urgent chan uc;";
     MTemplate t; t.name = "T"; t.decls = "clock z; int loc;";
     t.locs = {MLoc{"id0", "A", "z <= 5", "3"}, MLoc{"id1", "B", "x <= 7"}, MLoc{"id2", "C"}};
     t.bps = {"id5"}; t.init = 0;
     MEdge e0; e0.src = 0; e0.dst = 1; e0.select = "k : id_t"; e0.guard = "g < 3 && arr[k] >= 0"; e0.sync = "c!"; e0.assign = "h = g + 1, z = 0";
-    MEdge e1; e1.src = 1; e1.dst_bp = true; e1.dst = 0; e1.guard = "h > 1"; e1.assign = "g = 0";
+    MEdge e1; e1.src = 1; e1.dst_bp = true; e1.dst = 0; e1.guard = "h > 1"; e1.sync = "uc!"; e1.assign = "g = 0";   // urgent synchronisation: a clock guard here would draw a warning
     MEdge e2; e2.src_bp = true; e2.src = 0; e2.dst = 2; e2.prob = "2";
     MEdge e3; e3.src_bp = true; e3.src = 0; e3.dst = 0; e3.prob = "1"; e3.assign = "loc = 1";
     t.edges = {e0, e1, e2, e3};
@@ -71,13 +71,21 @@ static void erase_site(Document& doc, const Site& s)
         else if ((size_t)s.idx < t.edges.size()) { auto& e = t.edges[s.idx]; if (k == "guard") e.guard = expression_t(); else if (k == "synchronisation") e.sync = expression_t(); else if (k == "assignment") e.assign = expression_t(); else e.prob = expression_t(); }
     }
 }
-struct Fault { const char* name; int mode; const char* text; };   // mode 0: replace the label text, 1: append to it, 2: prepend
+struct Fault { const char* name; int mode; const char* text; };   // mode 0: replace the label text, 1: append to it, 2: prepend, 3: wrap ("before|after")
 static const Fault FAULTS[] = {
     {"undeclared-identifier", 1, " + nope"}, {"dropped-operand", 1, " +"}, {"unbalanced-bracket", 1, " )"}, {"unbalanced-open-bracket", 2, "( "}, {"stray-token", 1, " ] h"},
     {"unterminated-comment", 1, " /* tail"}, {"type-error", 1, " + c"}, {"unknown-token", 1, " @"}, {"quantifier-over-clock", 2, "(forall (i : clock) i > 0) + "},
     {"call-of-non-function", 1, " + g(1)"}, {"bad-array-index", 1, " + arr[c]"}, {"empty-label", 0, " "}, {"double-operator", 1, " * / 2"}, {"side-effect", 1, " + (g = 1)"}, {"exists-dynamic-unknown", 2, "(exists (p : Nope)(true)) + "},
-    {"sum-over-struct", 2, "(sum (i : chan) 1) + "}, {"overflowing-literal", 1, " + 20000000000"}, {"overflowing-literal-first", 2, "4294967296 + "}};
+    {"sum-over-struct", 2, "(sum (i : chan) 1) + "}, {"overflowing-literal", 1, " + 20000000000"}, {"overflowing-literal-first", 2, "4294967296 + "},
+    // the fault sits inside the body of a quantifier whose binder has the name of a variable other labels use: a scope left open would capture them
+    {"broken-forall-body", 3, "forall (g : int[0,1]) |  >"}, {"broken-exists-body", 3, "exists (h : int[0,1]) (| +"}, {"broken-sum-body", 3, "1 + sum (g : id_t) | ) ]"}};
 static const int NFAULTS = sizeof FAULTS / sizeof FAULTS[0];
+static void apply_fault(std::string& lt, const Fault& f)
+{
+    std::string t = f.text;
+    if (f.mode == 0) lt = t; else if (f.mode == 1) lt += t; else if (f.mode == 2) lt = t + lt;
+    else { size_t bar = t.find('|'); lt = t.substr(0, bar) + lt + t.substr(bar + 1); }
+}
 
 // full = false: reader + builders only (what the parse itself built); full = true: followed by TypeChecker / FeatureChecker as parse_XML_buffer(buf, doc) does
 static std::string parse_and_dump(MModel& m, const Site* mask, Document& doc, bool& threw, bool full = false)
@@ -90,7 +98,7 @@ static std::string parse_and_dump(MModel& m, const Site* mask, Document& doc, bo
     return dump_document(doc, o);
 }
 
-extern "C" void harness_label_faults()  /* vf: bounds=13_label_sites_in_2_templates(invariant,rate,guard,synchronisation,update,probability)_x_18_faults(syntactic_and_semantic) reach=end */
+extern "C" void harness_label_faults()  /* vf: bounds=13_label_sites_in_2_templates(invariant,rate,guard,synchronisation,update,probability)_x_21_faults(syntactic_and_semantic,incl._faults_inside_quantifier_bodies) reach=end */
 {
     int si = vf_pick("!site", NSITES), fi = vf_pick("!fault", NFAULTS);
     const Site& s = SITES[si]; const Fault& f = FAULTS[fi];
@@ -99,13 +107,15 @@ extern "C" void harness_label_faults()  /* vf: bounds=13_label_sites_in_2_templa
     Document rdoc; bool rthrew;
     std::string want = parse_and_dump(ref, &s, rdoc, rthrew);
     vf_assert(!rthrew && !rdoc.has_errors(), "fault-free-model-accepted");
-    { Document full; bool t2; MModel r2 = base_model(); parse_and_dump(r2, nullptr, full, t2, true); vf_assert(!t2 && !full.has_errors(), "fault-free-model-accepted-by-type-checker"); }
+    std::vector<std::string> ref_warnings;   // warnings the fault-free model draws anyway
+    { Document full; bool t2; MModel r2 = base_model(); parse_and_dump(r2, nullptr, full, t2, true); vf_assert(!t2 && !full.has_errors(), "fault-free-model-accepted-by-type-checker");
+      for (auto& w : full.get_warnings()) ref_warnings.push_back(w.msg + " @" + (w.start.path ? *w.start.path : std::string())); }
     // faulted model
     MModel m = base_model();
     std::string* lt = label_text(m, s);
     std::string sync_suffix;
     if (std::string(s.kind) == "synchronisation") { sync_suffix = lt->substr(lt->size() - 1); *lt = lt->substr(0, lt->size() - 1); }   // keep the ! / ? at the end
-    if (f.mode == 0) *lt = f.text; else if (f.mode == 1) *lt += f.text; else *lt = f.text + *lt;
+    apply_fault(*lt, f);
     *lt += sync_suffix;
     Document doc; bool threw;
     std::string got = parse_and_dump(m, &s, doc, threw);
@@ -123,6 +133,15 @@ extern "C" void harness_label_faults()  /* vf: bounds=13_label_sites_in_2_templa
     bool all_here = true;
     for (auto& e : fdoc.get_errors()) { std::string p = e.start.path ? *e.start.path : std::string(); if (p != path) { all_here = false; vf_note(("diagnostic elsewhere: " + e.msg + " @" + p).c_str()); } }
     vf_assert(all_here, "every-diagnostic-attributed-to-the-faulted-label");
+    bool warnings_here = true;   // a warning outside the faulted label is acceptable only if the fault-free model draws the same one
+    for (auto& w : fdoc.get_warnings()) {
+        std::string p = w.start.path ? *w.start.path : std::string();
+        if (p == path) continue;
+        std::string key = w.msg + " @" + p; bool known = false;
+        for (auto& r : ref_warnings) if (r == key) known = true;
+        if (!known) { warnings_here = false; vf_note(("warning elsewhere: " + key).c_str()); }
+    }
+    vf_assert(warnings_here, "no-new-warning-outside-the-faulted-label");
     bool must_report = std::string(f.name) != "empty-label";
     if (std::string(f.name) == "side-effect") { std::string k = s.kind; must_report = k == "guard" || k == "invariant" || k == "synchronisation" || k == "probability"; }   // an update may write; C11 lists the side-effect-free contexts
     if (must_report) vf_assert(fdoc.has_errors(), "fault-reported");
@@ -211,7 +230,7 @@ extern "C" void harness_label_faults_xta()  /* vf: bounds=13_label_sites_x_10_fa
     std::string* lt = label_text(m, s);
     std::string sync_suffix;
     if (std::string(s.kind) == "synchronisation") { sync_suffix = lt->substr(lt->size() - 1); *lt = lt->substr(0, lt->size() - 1); }
-    if (f.mode == 0) *lt = f.text; else if (f.mode == 1) *lt += f.text; else *lt = f.text + *lt;
+    apply_fault(*lt, f);
     *lt += sync_suffix;
     Document doc; bool threw;
     std::string got = run(m, doc, threw);
